@@ -393,6 +393,7 @@ type SmallCase struct {
 	CfgSet bool       `json:"cfg_set"` // config has an ignore.files key at all
 	Rule   []string   `json:"rule"`
 	Table  [][]string `json:"table"` // [pattern, "ok"/"bad", matching column strings...]
+	Cols   []string   `json:"cols"`
 	// observed
 	GoSelected         []string `json:"go_selected"` // the list linter.Lint hands to FilterIgnoredPaths (mirrored here, see note)
 	GoKept             []string `json:"go_kept"`     // FilterIgnoredPaths(files, selected, false, prefix)
@@ -478,6 +479,7 @@ func smallCase(o *opa, src, prefix string, files, cli, cfg []string, cfgSet bool
 			}
 		}
 	}
+	c.Cols = cols
 	patSet := map[string]bool{}
 	for _, l := range [][]string{c.Cli, c.Cfg, c.Rule} {
 		for _, p := range l {
@@ -731,7 +733,9 @@ type LintCase struct {
 	CfgSet  bool                `json:"cfg_set"`
 	RuleIgn map[string][]string `json:"rule_ignore"` // per rule kind: builtin / custom / agg
 	Table   [][]string          `json:"table"`
+	Cols    []string            `json:"cols"`
 	// observed
+	Compiler     map[string][]string `json:"compiler"` // _pattern_compiler(p) for every pattern of the case
 	Err          string              `json:"err,omitempty"`
 	FilesScanned int                 `json:"files_scanned"`
 	Hit          map[string][]string `json:"hit"` // rule kind -> canonical names of files with a violation of it
@@ -776,21 +780,32 @@ func canon(root, s string) string {
 
 func runLint(env lintEnv, c *LintCase) {
 	decanon := func(s string) string { return strings.ReplaceAll(s, "/R", env.root) }
+	// in patterns "R/" stands for the workspace root without its leading separator
+	depat := func(l []string) []string {
+		if l == nil {
+			return nil
+		}
+		res := []string{}
+		for _, p := range l {
+			res = append(res, strings.ReplaceAll(p, "R/", env.root[1:]+"/"))
+		}
+		return res
+	}
 	prefix := decanon(c.Prefix)
 	conf := config.Config{Rules: map[string]config.Category{}}
 	if c.CfgSet {
-		conf.Ignore.Files = c.Cfg
+		conf.Ignore.Files = depat(c.Cfg)
 	}
 	for kind, ign := range c.RuleIgn {
 		ct := ruleTitle[kind]
 		if conf.Rules[ct[0]] == nil {
 			conf.Rules[ct[0]] = config.Category{}
 		}
-		conf.Rules[ct[0]][ct[1]] = config.Rule{Level: "error", Ignore: &config.Ignore{Files: ign}}
+		conf.Rules[ct[0]][ct[1]] = config.Rule{Level: "error", Ignore: &config.Ignore{Files: depat(ign)}}
 	}
 	l := linter.NewLinter().WithUserConfig(conf).WithCustomRules([]string{env.rulesDir}).WithPathPrefix(prefix)
-	if len(c.Cli) > 0 || c.Cli != nil {
-		l = l.WithIgnore(c.Cli)
+	if c.Cli != nil {
+		l = l.WithIgnore(depat(c.Cli))
 	}
 	var names []string
 	for _, f := range c.Files {
@@ -830,7 +845,16 @@ func runLint(env lintEnv, c *LintCase) {
 	}
 }
 
-func lintTable(c *LintCase) {
+// lintTable asks the engine about the REAL strings of the run (real workspace root in names and
+// patterns) and writes the answers with the root spelled "/R" (names) resp. "R" (root without its
+// leading separator), the spelling used everywhere else in the case.
+func lintTable(o *opa, env lintEnv, c *LintCase) {
+	real := func(s string) string { return strings.ReplaceAll(s, "/R", env.root) }
+	realPat := func(p string) string { return strings.ReplaceAll(p, "R/", env.root[1:]+"/") }
+	canonAny := func(s string) string {
+		s = strings.ReplaceAll(s, env.root, "/R")
+		return strings.ReplaceAll(s, env.root[1:], "R")
+	}
 	colSet := map[string]bool{}
 	var cols []string
 	addc := func(s string) {
@@ -840,11 +864,13 @@ func lintTable(c *LintCase) {
 		}
 	}
 	addc("__aggregate_report__")
-	for i, f := range c.Files {
+	prefix := real(c.Prefix)
+	for i, cf := range c.Files {
+		f := real(cf)
 		addc(f)
 		addc(c.Rel[i])
 		addc(strings.TrimPrefix(f, "/"))
-		for _, pre := range []string{c.Prefix, c.Prefix + "/", strings.TrimSuffix(c.Prefix, "/")} {
+		for _, pre := range []string{prefix, prefix + "/", strings.TrimSuffix(prefix, "/")} {
 			if pre != "" {
 				addc(strings.TrimPrefix(f, pre))
 			}
@@ -854,15 +880,26 @@ func lintTable(c *LintCase) {
 	for _, l := range c.RuleIgn {
 		lists = append(lists, l)
 	}
+	c.Cols = nil
+	for _, u := range cols {
+		c.Cols = append(c.Cols, canonAny(u))
+	}
+	c.Compiler = map[string][]string{}
 	patSet := map[string]bool{}
 	for _, l := range lists {
-		for _, p := range l {
-			if patSet[p] {
+		for _, cp := range l {
+			if patSet[cp] {
 				continue
 			}
-			patSet[p] = true
+			patSet[cp] = true
+			p := realPat(cp)
+			comp := []string{}
+			for _, e := range toStrings(o.eval(qCompiler, map[string]any{"patterns": []string{p}}).([]any)[0]) {
+				comp = append(comp, canonAny(e))
+			}
+			c.Compiler[cp] = comp
 			for _, e := range closure(p) {
-				row := []string{e}
+				row := []string{canonAny(e)}
 				g, err := glob.Compile(e, '/')
 				if err != nil {
 					row = append(row, "bad")
@@ -870,7 +907,7 @@ func lintTable(c *LintCase) {
 					row = append(row, "ok")
 					for _, u := range cols {
 						if g.Match(u) {
-							row = append(row, u)
+							row = append(row, canonAny(u))
 						}
 					}
 				}
@@ -880,7 +917,7 @@ func lintTable(c *LintCase) {
 	}
 }
 
-func lintCases(out *hutil.Out, rng *hutil.Rng, tier string, work string) {
+func lintCases(out *hutil.Out, o *opa, rng *hutil.Rng, tier string, work string) {
 	env := setupLint(work)
 	var cases []*LintCase
 	mk := func(src, mode, prefix string, rel, cli, cfg []string, cfgSet bool, ign map[string][]string) {
@@ -918,6 +955,8 @@ func lintCases(out *hutil.Out, rng *hutil.Rng, tier string, work string) {
 	mk("fixed:empty-pattern-rule", "paths-abs", "/R", all, nil, nil, false, map[string][]string{"builtin": {""}, "custom": {""}, "agg": {""}})
 	mk("fixed:abs-noprefix-rooted-pattern", "paths-abs", "", all, nil, nil, false,
 		map[string][]string{"builtin": {"R/a/b.rego"}, "custom": {"R/a/b.rego"}, "agg": {"R/a/b.rego"}})
+	mk("fixed:abs-noprefix-abs-cli-pattern", "paths-abs", "", all, []string{"/R/a/b.rego", "/R/b/"}, nil, false, nil)
+	mk("fixed:agg-report-placeholder", "paths-abs", "/R", all, nil, nil, false, map[string][]string{"agg": {"__*"}, "custom": {"__*"}})
 	mk("fixed:nothing", "paths-abs", "/R", all, nil, nil, false, nil)
 	mk("fixed:single-file", "paths-abs", "/R", []string{"a/b.rego"}, nil, nil, false, nil)
 	mk("fixed:two-files-one-ignored", "paths-abs", "/R", []string{"a/b.rego", "b.rego"}, nil, []string{"/b.rego"}, true, nil)
@@ -933,13 +972,17 @@ func lintCases(out *hutil.Out, rng *hutil.Rng, tier string, work string) {
 		for i := 0; i < n; i++ {
 			if rng.Below(2) == 0 {
 				r := hutil.Choice(rng, all)
-				switch rng.Below(4) {
+				switch rng.Below(6) {
 				case 0:
 					l = append(l, r)
 				case 1:
 					l = append(l, "/"+r)
 				case 2:
 					l = append(l, filepath.Dir(r)+"/")
+				case 3:
+					l = append(l, "/R/"+r)
+				case 4:
+					l = append(l, "R/"+filepath.Dir(r)+"/")
 				default:
 					l = append(l, filepath.Base(r))
 				}
@@ -978,13 +1021,13 @@ func lintCases(out *hutil.Out, rng *hutil.Rng, tier string, work string) {
 		}
 		mk("random", mp[0], mp[1], rel, cli, cfg, cfgSet, ign)
 	}
-	runAll(env, cases)
+	runAll(o, env, cases)
 	for _, c := range cases {
 		out.Emit(c)
 	}
 }
 
-func runAll(env lintEnv, cases []*LintCase) {
+func runAll(o *opa, env lintEnv, cases []*LintCase) {
 	var wg sync.WaitGroup
 	sem := make(chan struct{}, runtime.NumCPU())
 	for _, c := range cases {
@@ -993,7 +1036,7 @@ func runAll(env lintEnv, cases []*LintCase) {
 		go func(c *LintCase) {
 			defer wg.Done()
 			defer func() { <-sem }()
-			lintTable(c)
+			lintTable(o, env, c)
 			runLint(env, c)
 		}(c)
 	}
@@ -1023,7 +1066,7 @@ func replay(out *hutil.Out, o *opa, file, work string) {
 		must(json.Unmarshal(r.Case, &c))
 		env := setupLint(work)
 		c.Table, c.Hit, c.Err, c.FilesScanned = nil, nil, "", 0
-		runAll(env, []*LintCase{&c})
+		runAll(o, env, []*LintCase{&c})
 		out.Emit(c)
 	case "pat":
 		var c struct {
@@ -1086,5 +1129,5 @@ func main() {
 	pats, srcs := patternSet(rng, tier, corpus)
 	bulk(out, o, pats, srcs, shs, universe)
 	smallCases(out, o, rng, tier, all)
-	lintCases(out, rng, tier, work)
+	lintCases(out, o, rng, tier, work)
 }
